@@ -13,20 +13,31 @@ GEN = ()
 DRIVER = "drv_gatenet"
 LEVEL_TEXT = ("Lean 4 theorems about a hand-written executable model of every Gate.as_tensornet (wrap, general/time-evolution "
               "reshape, phase-factor chain, multiplexer, rank-one preparation network, controlled-gate construction with control "
-              "stack, wire-crossing tensors, Pauli-X sandwich and flattening of nested controlled gates): consistency, open-axis "
-              "layout and denotation = reshaped matrix for ALL numbers of controls / patterns / widths (induction along the control "
-              "chain); the model is tied to the code by comparing tensors, bonds (up to the canonical bond relabelling), data arrays "
-              "(exact), flags and dense values on every run.")
+              "stack, wire-crossing tensors, Pauli-X sandwich and flattening of nested controlled gates), for ALL numbers of "
+              "controls / control patterns / nesting depths / multiplexer and target widths over any commutative semiring: "
+              "(1) every network passes is_consistent (declarative WF + Core C bridge to the executable check), also with its data; "
+              "(2) 2*num_wires open axes of dimension 2; (3) the denotation `full` (defining sum, shared open legs = Kronecker "
+              "deltas) equals the matrix entry at (outputs, inputs) in particle order - controlled gates by induction along the "
+              "chain of wire-crossing tensors, nested gates via a flat-index lemma for nested control matrices; (4) preparation "
+              "network = rank-one |x><0..0| agreeing with the gate on the all-zero input. The four two-qubit wraps (Rxx, Ryy, Rzz, "
+              "iSWAP) are a recorded known finding: `_partial` theorems exclude exactly them and a theorem proves the negation on "
+              "the witness. The model is tied to the code by comparing tensors, bonds (canonical bond relabelling), data arrays "
+              "(exact), flags, matrices (exact) and dense values on every run.")
 ASSUMPTIONS = ["np.einsum / to_full_tensor are the observation points named by the property (their agreement with the defining sum is C07)",
                "leaf matrices, expm / qr results reach the model as exact rationals taken from the implementation; exp(i*phi/n) of the "
-               "phase-factor network is recomputed by the harness from the gate's parameters",
+               "phase-factor network is recomputed by the harness from the gate's parameters; the theorem needs un^n = u, proved for "
+               "u = exp(i phi), un = exp(i phi/n) over C (C06_phase_complex), checked numerically on the implementation",
                "data references (Python strings / hash values) are compared after the canonical renaming described in QibModel/GateNet.lean",
                "outside 'offers a tensor-network form': BlockEncodingGate (NotImplementedError), a controlled gate with zero controls "
-               "in total (IndexError), PhaseFactorGate on zero wires (ZeroDivisionError) - error kinds are still compared with the model"]
-RULE = ("every gate class at boundary parameters; ALL control patterns for 1..4 controls (5 in thorough) x targets of 0..2 wires of every "
+               "in total (IndexError), PhaseFactorGate on zero wires (ZeroDivisionError), a multiplexer with targets of different widths "
+               "(ValueError) - error kinds are still compared with the model (C06_offers_network)",
+               "the model's dense denotation is evaluated only up to a tier-dependent number of terms (exact Gaussian rationals); above it "
+               "network, data, flags and matrix are still compared and the oracle still contracts the implementation's network"]
+RULE = ("every gate class at boundary parameters; ALL control patterns for 1..4 controls (1..5 in thorough) x targets of 0..2 wires of every "
         "kind; nested controlled gates (all pattern pairs up to 2+2, depth 3 samples, zero-control wrappers); multiplexer widths 0..3 x "
-        "target widths 1..2; phase chains on 1..4 wires; preparation on 0..3 qubits, both transposes; seeded random nested gates; a case is "
+        "target widths 1..2; phase chains on 1..4(5) wires; preparation on 0..3 qubits, both transposes; seeded random nested gates; a case is "
         "non-trivial if the network has at least two real tensors or a shared open leg; distinct = distinct case descriptors")
+TECHNIQUE = "Lean 4 proof (induction along the control chain; counting argument for consistency) + exact differential check of every constructed network"
 TOL = 1e-9
 
 LEAF1 = ["IdentityGate", "PauliXGate", "PauliYGate", "PauliZGate", "HadamardGate", "SxGate", "RxGate", "RyGate", "RzGate",
@@ -454,6 +465,8 @@ def run(rep, tier, rng, drv):
             rep.count("class:" + o.get("ckey", "?"))
             if "raw" in o:
                 rep.count("tensors:%d" % (len(o["raw"]["tensors"]) - 1))
+            if case["spec"][0] == "ctrl" and len(case["spec"][1]) <= (5 if tier == "thorough" else 4):
+                rep.count("exhaustive-control-patterns:nc=%d" % len(case["spec"][1]))
             if "err" in o:
                 rep.count("refused:" + o["err"])
         return oracle(case, o)
